@@ -261,6 +261,24 @@ def sweep_owner(ctx, o, cases, X):
                 if not still:
                     ctx.corr_break("knownDeviations", {"owner": o, "param": p, "value": cl.value_repr(v)},
                                    "listed as a deviation of the current code, but the real table now accepts it: remove the entry")
+    if not is_est:
+        # second pass over the decorated function, in the same process, AFTER every value of the sweep (valid ones included)
+        # has been seen once: validation has no memory, so each value must meet the same fate as on a first call
+        # (an equal-comparing value of the wrong type — 0 for False, 1.0 for 1 — after a valid one is the classic failure)
+        for (p, v, verdict, model_acc, run_call, in_late, in_known) in cases:
+            if not run_call or cl.is_huge(v, p):
+                continue
+            try:
+                reals = cl.realise(v, o, p)
+            except Exception:     # noqa
+                continue
+            for label, obj in reals:
+                how = f"{o}(..., {p}=<{label} {cl.value_repr(v)}>) called again after the whole sweep of {o} in the same process"
+                res = cl.call_function(funcs[o][0], funcs[o][1], p, obj)
+                if res["outcome"] == "base-failed":
+                    continue
+                ctx.compared("call:function:second-pass")
+                sweep.judge(o, p, v, label, obj, verdict, res, how)
 
 
 def _selected(rs, v, verdict, model_acc):
